@@ -103,6 +103,13 @@ pub fn f2u(v: f64) -> Option<u64> {
 /// Run `f` on a fresh OS thread whose `RandomState` keys derive from `hash_seed`, so that
 /// nothing a run does depends on what the process executed before.
 pub fn isolated<T: Send + 'static>(hash_seed: u64, f: impl FnOnce() -> T + Send + 'static) -> T {
+    // no address is reused inside a run (see quarantine.rs); runs of one process are sequential
+    crate::quarantine::begin();
+    let r = isolated_inner(hash_seed, f);
+    crate::quarantine::end();
+    r
+}
+fn isolated_inner<T: Send + 'static>(hash_seed: u64, f: impl FnOnce() -> T + Send + 'static) -> T {
     let h = std::thread::Builder::new()
         .name("run".into())
         .stack_size(1024 * 1024)
